@@ -45,6 +45,8 @@ inductive Cmd
   | update (name : Bytes) (to : Bytes)
   /-- a DEPLOY transaction; `addr` = `contract.CreateContractID(account, nonce)` (a SHA-256 value: stated by the harness) -/
   | deploy (addr : Bytes)
+  /-- a call whose payload is a stub-VM script; `fail` = the script ends in a VM error (`{"err":"vm"}`) -/
+  | script (fail : Bool)
 deriving DecidableEq, Repr
 
 /-- `types.Tx`: the body fields, the carried `Hash`, and three observed attributes (`size` = `proto.Size`,
@@ -448,10 +450,24 @@ def stdBody : Body := fun l t sender =>
     else if !(l.creator rcpt).isEmpty then
       -- the recipient is a contract (checkExecution, version ≥ 4)
       (if t.type = 0 ∨ (t.type = 4 ∧ (!t.payload.isEmpty ∨ amount = 0)) then .runtimeFail l
-       else if !t.payload.isEmpty then .reject (.body cUnsupported)      -- scripted calls: not generated
+       else if !t.payload.isEmpty then
+         (match t.cmd with
+          | .script true => .runtimeFail l                 -- VM error: everything but nonce (and fee) undone
+          | .script false => .ok (move l sender rcpt amount)
+          | _ => .reject (.body cUnsupported))
        else .ok (move l sender rcpt amount))
     else if t.type = 5 then .runtimeFail l        -- CALL of an account without code: "not found contract"
     else .ok (move l sender rcpt amount)
+  else if t.type = 3 then
+    -- fee delegation: the called contract pays the (here: zero) fee; on a VM error `resetAccount(sender, nil, &nonce)`
+    -- and `resetAccount(receiver, fee, nil)`: the SENDER's nonce is consumed all the same (done by `executeTx`)
+    let rcpt := getAddress l.names t.recipient
+    if (l.creator rcpt).isEmpty ∨ sender = rcpt then .reject (.body cUnsupported)
+    else
+      (match t.cmd with
+       | .script true => .runtimeFail l
+       | .script false => .ok (move l sender rcpt amount)
+       | _ => .reject (.body cUnsupported))
   else if t.type = 6 then
     (match t.cmd with
      | .deploy addr =>
@@ -490,6 +506,9 @@ def stdExtra (W : World) (acc : Bytes) (t : Tx) : Option Nat :=
     else none
   else if t.type = 1 ∧ t.recipient = aergoName then nameValidate { W.led with pend := [] } t acc
   else if t.type = 6 then (if !t.recipient.isEmpty then some cRecipient else none)
+  else if t.type = 3 then
+    -- recipient resolvable; `ValidateMaxFee` of the contract (zero fee); `CheckFeeDelegation` (stub: allowed)
+    (if (getAddress W.led.names t.recipient).isEmpty then some cRecipient else none)
   else some cUnsupported
 
 /-! ### An ideal signature scheme and the identity hash, for the executable driver and for non-vacuity examples -/
